@@ -27,9 +27,10 @@ LAB = r'\d{1,2}[a-z]?'
 
 
 class Instr(object):
-    def __init__(self, expr, carry, text, notes=None):
+    def __init__(self, expr, carry, text, notes=None, include=None):
         self.expr = expr
         self.carry = carry
+        self.include = include or []
         self.text = text
         self.notes = notes or []
 
@@ -37,7 +38,7 @@ class Instr(object):
         e = self.expr
         if e is None:
             return []
-        if e[0] == 'floor0':
+        if e[0] in ('floor0', 'roundup'):
             e = e[1]
         k = e[0]
         if k == 'add':
@@ -113,6 +114,8 @@ CARRY = re.compile(
     r'(?:Enter (?:the result |the total |this amount )?(?:here and )?on|Also,? enter this amount on|and on|here and on|Enter this amount on)\s+'
     r'(?P<form>(?:Schedule [0-9A-Z]+(?: \(Form 1040\))?|Form 1040)[^.;]*?),?\s+(?:Part [IVX]+,\s+)?line (?P<line>' + LAB + r')', re.I)
 
+INCLUDE = re.compile(r'(?:If more than zero, )?also include this amount on (?:\d{4} )?(?P<form>Form 1040|Schedule [0-9A-Z]+)[^.;]*?,?\s+line (?P<line>' + LAB + r')', re.I)
+
 UNRECOGNISED = re.compile(r'\b(If|Otherwise|But if|next multiple|unless|whichever|stop here)\b', re.I)
 
 
@@ -129,6 +132,11 @@ def parse(text, label, ordered_labels=None):
         f = find_form(m.group('form'))
         if f:
             carry.append((f, m.group('line')))
+    include = []
+    for m in INCLUDE.finditer(body):
+        f = find_form(m.group('form'))
+        if f:
+            include.append((f, m.group('line')))
     body_nocarry = CARRY.sub('', body)
     body_nocarry = re.sub(r'\s*(?:Enter the result|Enter the total)\s*\.?', ' ', body_nocarry)
     body_nocarry = re.sub(r'\s+\.', '.', body_nocarry)
@@ -172,6 +180,11 @@ def parse(text, label, ordered_labels=None):
                 floor = 'zero'
                 tail = tail[fm.end():]
             expr = ('sub', a, bb, floor)
+            rm = re.match(r'^\s*If more than zero and not a multiple of \$1,000, enter the next multiple of \$1,000\.(?: For example,[^.]*\.(?:[^.]*\.)?)?(?:\s*etc\.)?', tail)
+            if floor == 'zero' and rm:
+                expr = ('roundup', expr, 1000.0)
+                tail = tail[rm.end():]
+                tail = re.sub(r'^[^.]*etc\.\s*', '', tail)
             rest = tail
     if expr is None:
         m = re.match(rf'^Multiply line (?P<a>{LAB}) by (?:(?P<pct>\d+(?:\.\d+)?) ?% \((?P<dec>0?\.\d+)\)|\$(?P<usd>[\d,]+)|line (?P<b>{LAB}))\.', b)
@@ -212,13 +225,15 @@ def parse(text, label, ordered_labels=None):
             rest = ''
     if expr is None:
         if carry and not UNRECOGNISED.search(CARRY.sub('', body)):
-            return Instr(None, carry, t)
+            return Instr(None, carry, t, include=include)
+        if include:
+            return Instr(None, [], t, include=include)
         return None
     # soundness: anything conditional that was not recognised => unparsed
     if rest is not None and not IGNORABLE_TAIL.match(rest):
         if UNRECOGNISED.search(rest):
             return None
-    return Instr(expr, carry, t)
+    return Instr(expr, carry, t, include=include)
 
 
 # ---------------------------------------------------------------------------
@@ -228,6 +243,17 @@ def evaluate(expr, get):
     if k == 'floor0':
         r = evaluate(expr[1], get)
         return None if r is None else max(0.0, r)
+    if k == 'roundup':
+        import math
+        r = evaluate(expr[1], get)
+        if r is None:
+            return None
+        if r <= 0:
+            return 0.0
+        # exact decimal arithmetic on cents: the next multiple of the unit, or the amount itself if it is one
+        cents = round(r * 100)
+        unit = round(expr[2] * 100)
+        return float(((cents + unit - 1) // unit) * unit) / 100.0
     if k == 'add':
         return sum(get(l) for l in expr[1])
     if k == 'sub':
